@@ -49,7 +49,7 @@ type UniversalDecoder struct {
 }
 
 func (_this *UniversalDecoder) Decode(reader io.Reader, eventReceiver events.DataEventReceiver) error {
-	bufReader := bufio.NewReader(reader)
+	bufReader := bufio.NewReader(&stickyErrorReader{reader: reader})
 	firstByte, err := bufReader.Peek(1)
 	if err != nil {
 		return err
@@ -81,6 +81,28 @@ func chooseDecoder(identifier byte, config *configuration.Configuration) (decode
 		decoder = cbe.NewDecoder(config)
 	default:
 		err = fmt.Errorf("%02d: Unknown CE identifier", identifier)
+	}
+	return
+}
+
+// stickyErrorReader keeps returning the first non-EOF error its reader
+// returned. bufio.Reader holds back an error that arrives together with data,
+// and its WriteTo (used by io.Copy) replaces that pending error with the result
+// of its next read; a source that fails only once would therefore have its
+// failure silently dropped. Making the failure permanent guarantees that it
+// reaches the decoder.
+type stickyErrorReader struct {
+	reader io.Reader
+	err    error
+}
+
+func (_this *stickyErrorReader) Read(p []byte) (n int, err error) {
+	if _this.err != nil {
+		return 0, _this.err
+	}
+	n, err = _this.reader.Read(p)
+	if err != nil && err != io.EOF {
+		_this.err = err
 	}
 	return
 }
